@@ -176,7 +176,7 @@ class Inst:
         self.al = to_camel_case if job["aliaser"] == "camel" else (lambda s: s)
         kw = {} if job["aliaser"] == "camel" else {"aliaser": self.al}
         self.schema = mod.graphql_schema(
-            query=[mod.item, mod.items, mod.find, mod.put, mod.Query(mod.half, error_handler=mod.half_handler), mod.shop, mod.employee, mod.named, mod.pet, mod.pets],
+            query=[mod.item, mod.items, mod.find, mod.put, mod.Query(mod.half, error_handler=mod.half_handler, parameters_metadata={"n": mod.alias("num_val")}), mod.shop, mod.employee, mod.named, mod.pet, mod.pets],
             types=[mod.Shop, mod.Employee],
             **kw,
         )
@@ -281,7 +281,8 @@ class Inst:
             var = {"n": n}
             ctx.witness = var
             ctx.run_phase()
-            res = self.gql.graphql_sync(self.schema, "query($n: Int!) { half(n: $n) }", variable_values=var)
+            arg = self.al("num_val")  # aliased parameter: external name in the schema and in error locs
+            res = self.gql.graphql_sync(self.schema, "query($n: Int!) { half(%s: $n) }" % arg, variable_values=var)
             if n >= 1:
                 ctx.notes["tag:invoked"] = True
                 exp_log = [("half", n)] + ([("handler", "RuntimeError")] if n % 2 else [])
@@ -294,6 +295,8 @@ class Inst:
                     return Failure("invalid-argument-without-graphql-error", witness=var, extra={"data": res.data, "log": list(LOG)})
                 if LOG:
                     return Failure("resolver-or-handler-invoked-despite-invalid-argument", witness=var, extra={"log": list(LOG)})
+                if repr([arg]) not in str(res.errors[0]):
+                    return Failure("argument-error-not-located-at-external-name", witness=var, extra={"error": str(res.errors[0]), "external": arg})
             return None
         if which == "find":
             n = self.i32(ctx, "n")
